@@ -8,6 +8,7 @@ import (
 
 	"pgregory.net/rapid"
 	"verif/internal/loginpeer"
+	rc "verif/internal/refcodec"
 	"verif/internal/vh"
 )
 
@@ -18,6 +19,10 @@ import (
 
 type historyCase struct {
 	Logins []c09Case `json:"logins_over_one_connection"`
+	// Reuse: the application keeps ONE login configuration object and logs in again with it
+	// (credentials, encryption setting changed on the object); earlier logins may have used the
+	// plain flow (Plain set on them)
+	Reuse bool `json:"login_config_object_reused,omitempty"`
 }
 
 func runHistory(h historyCase) *vh.Failure {
@@ -26,7 +31,9 @@ func runHistory(h historyCase) *vh.Failure {
 	var symkeys, allCiphers [][]byte
 	for li, c := range h.Logins {
 		where := fmt.Sprintf("login %d of %d over one connection (user %q password %d bytes, %d remotes, key %d bits, nonce %d bytes, reject=%q)", li+1, len(h.Logins), c.User, len(c.Password), len(c.Remotes), c.Key.Bits, len(c.Nonce), c.Reject)
-		res := sess.Login(cfg(c, c.Password), script(c), 20*time.Second)
+		lc := cfg(c, c.Password)
+		lc.ReuseConf = h.Reuse
+		res := sess.Login(lc, script(c), 20*time.Second)
 		if res.Panic != nil {
 			return vh.Failf("C09/login-panics", "%s: %v", where, res.Panic)
 		}
@@ -38,6 +45,23 @@ func runHistory(h historyCase) *vh.Failure {
 		}
 		if c.Reject != "" && res.Err == nil {
 			return vh.Failf("C09/unexpected-success", "%s: login succeeded although the server rejected it", where)
+		}
+		if c.Plain {
+			// an earlier login of the application that did not ask for password encryption: only
+			// what it leaves behind for the later ones matters here
+			vh.Label("history:plain-login-first")
+			continue
+		}
+		if body1 := loginpeer.Body(res.Msg1); len(body1) > 0 {
+			lr, err := rc.DecodeLoginRecord(body1)
+			if err != nil {
+				return vh.Failf("C09/login-record-layout", "%s: %v", where, err)
+			}
+			for i, b := range lr.PasswordSlot {
+				if b != 0 {
+					return vh.Failf("C09/password-slot-not-empty", "%s: byte %d of the login record's password slot is %#x", where, i, b)
+				}
+			}
 		}
 		if !res.GotMsg2 {
 			return vh.Failf("C09/no-second-message", "%s: the client never sent the encrypted credentials (err %v)", where, res.Err)
@@ -138,6 +162,16 @@ func TestLoginsOverOneConnection(t *testing.T) {
 				}
 			}
 			h.Logins = append(h.Logins, c)
+		}
+		h.Reuse = rapid.Bool().Draw(rt, "reuseconf")
+		if rapid.IntRange(0, 2).Draw(rt, "plainfirst") == 0 {
+			// the first login(s) without password encryption, the last one with it
+			for i := 0; i < n-1; i++ {
+				h.Logins[i].Plain, h.Logins[i].Reject, h.Logins[i].Remotes = true, "", nil
+				if len(h.Logins[i].Password) > 30 {
+					h.Logins[i].Password = h.Logins[i].Password[:30]
+				}
+			}
 		}
 		return h
 	}
